@@ -3,7 +3,7 @@
    and |a| <= 2^40: the hypothesis fdiv_spec of the divmod floor theorem holds for the model. *)
 From Coq Require Import ZArith Reals Psatz Floats Bool Lia.
 From Flocq Require Import Core BinarySingleNaN PrimFloat.
-From PB Require Import Proofs.TwoSumExact Model.Phase2 Model.PhaseDivmod Proofs.Floor Proofs.DayFrac Proofs.DayFrac3 Proofs.PhaseCmp Proofs.PhaseCmpAll
+From PB Require Import Proofs.TwoSumExact Model.Phase2 Model.PhaseDivmod Proofs.Floor Proofs.DayFrac Proofs.DayFrac3 Proofs.DayFracTail Proofs.DayFracFold Proofs.PhaseCmp Proofs.PhaseCmpAll
   Proofs.PhaseMul Proofs.DivChain Proofs.PhaseDiv Proofs.FmodSpec.
 Open Scope R_scope.
 
